@@ -87,18 +87,20 @@ type cfgDef struct {
 }
 
 var cfgs = map[string]cfgDef{
-	"default":  {"default", ""},
-	"purego":   {"purego", ""},
-	"noavx2":   {"default", "cpu.avx2=off"},
-	"nobmi2":   {"default", "cpu.bmi2=off"},
-	"noadx":    {"default", "cpu.adx=off"},
-	"alloff":   {"default", "cpu.avx2=off,cpu.bmi2=off,cpu.adx=off"},
-	"race":     {"race", ""},
-	"checkptr": {"checkptr", ""},
-	"asan":     {"asan", ""},
-	"cover":    {"cover", ""},
-	"fuzz":     {"fuzz", ""},
-	"386":      {"386", ""},
+	"default": {"default", ""},
+	"purego":  {"purego", ""},
+	"noavx2":  {"default", "cpu.avx2=off"},
+	"nobmi2":  {"default", "cpu.bmi2=off"},
+	"noadx":   {"default", "cpu.adx=off"},
+	"alloff":  {"default", "cpu.avx2=off,cpu.bmi2=off,cpu.adx=off"},
+	"race":    {"race", ""},
+	// the race detector over the portable back-ends the CPU switches select
+	"race-alloff": {"race", "cpu.avx2=off,cpu.bmi2=off,cpu.adx=off"},
+	"checkptr":    {"checkptr", ""},
+	"asan":        {"asan", ""},
+	"cover":       {"cover", ""},
+	"fuzz":        {"fuzz", ""},
+	"386":         {"386", ""},
 }
 
 var (
@@ -508,7 +510,7 @@ func run(id, tier string, seed int64, rp *Replay, only, onlyCfg string, par int)
 			inconclusive = append(inconclusive, fmt.Sprintf("%s: %s", j.id, j.status))
 		}
 		// race / asan logs
-		if j.cfg == "race" {
+		if cfgs[j.cfg].build == "race" {
 			reps := parseRaceLogs(filepath.Join(bdir, "run", j.id+".race"))
 			raceReports += len(reps)
 			for _, rr := range reps {
@@ -795,7 +797,7 @@ func runJob(j *job, bdir, tier string, seed int64) {
 	if g := cfgs[j.cfg].godebug; g != "" {
 		env = append(env, "GODEBUG="+g)
 	}
-	if j.cfg == "race" {
+	if cfgs[j.cfg].build == "race" {
 		env = append(env, "GORACE=halt_on_error=0 history_size=3 log_path="+filepath.Join(rdir, j.id+".race"))
 	}
 	if j.cfg == "asan" {
